@@ -179,13 +179,26 @@ Theorem trailing_characters_rejected : forall cur y m d zm zd s1 s2 x r,
 Proof. exact trailing_rejected. Qed.
 Print Assumptions trailing_characters_rejected.
 
-(* the year of a year-less date read when today's month is earlier: the previous year, same day,
-   unless the date is the last day of its month *)
+(* the year of a year-less date: the current year, or - when its month is after today's month -
+   the same month and day of the previous year (built by the date constructor) *)
+Theorem md_year_rule : forall cy cm cd m d,
+  valid_ymd cy m d -> 1400 <= cy <= 9999 ->
+  infer_year (cy, cm, cd) (boost_day_number cy m d) =
+  if cm <? m then mk_date (cy - 1) m d else DOk (boost_day_number cy m d).
+Proof. exact infer_year_spec. Qed.
+Print Assumptions md_year_rule.
+
 Theorem md_previous_year : forall cy cm cd m d,
-  valid_ymd cy m d -> 1401 <= cy <= 9999 -> cm < m -> d <> days_in_month cy m ->
+  valid_ymd cy m d -> valid_ymd (cy - 1) m d -> 1401 <= cy <= 9999 -> cm < m ->
   infer_year (cy, cm, cd) (boost_day_number cy m d) = DOk (boost_day_number (cy - 1) m d).
 Proof. exact infer_prev_year. Qed.
 Print Assumptions md_previous_year.
+
+(* ... and every day except 29 February exists in the previous year *)
+Theorem previous_year_has_the_day : forall y m d,
+  valid_ymd y m d -> (m, d) <> (2, 29) -> valid_ymd (y - 1) m d.
+Proof. exact valid_prev_year. Qed.
+Print Assumptions previous_year_has_the_day.
 
 (* two of the five readers of times_initialize can never answer: %y/%m/%d is shadowed by
    %Y/%m/%d, and %Y-%m-%d never sees a '-' once the separators are rewritten *)
@@ -208,23 +221,42 @@ Example rejected_examples :
   p [49;48;48;48;48;47;48;49;47;48;49] = DErr DInvalid (* 10000/01/01 *).
 Proof. vm_compute. repeat split. Qed.
 
-(* ---- finding F32: without a year directive, a year-less date later in the year than today is
-   moved to the previous year with boost's end-of-month rule.  The statement "MM/DD always denotes
-   that month and day" is FALSE of the faithful model: read on 2021-01-15, `02/28` is 2020-02-29. ---- *)
-Theorem md_now_exact_day_refuted :
-  exists cur s dn m d zm zd,
-    parse_date [] cur s = DOk dn /\ map norm_sep s = spell_md m d zm zd /\
-    let '(_, m', d') := boost_from_day_number dn in (m', d') <> (m, d).
-Proof.
-  exists (2021, 1, 15), [48; 50; 47; 50; 56], (boost_day_number 2020 2 29), 2, 28, true, true.
-  split; [vm_compute; reflexivity|]. split; [reflexivity|]. vm_compute. discriminate.
-Qed.
-Print Assumptions md_now_exact_day_refuted.
+(* ---- a year-less MM/DD that is accepted denotes exactly that month and day, in the current year
+   or (month after today's month) in the previous year - for every current date, with or without a
+   year directive.  (Before /repo 9c78ad5 [F32] the step back used `when -= gregorian::years(1)`,
+   whose end-of-month rule read `02/28` on 2021-01-15 as 2020-02-29.) ---- *)
+Theorem md_exact_day : forall cy cm cd m d zm zd s1 dn,
+  valid_ymd cy m d -> 1400 <= cy <= 9999 -> is_sep s1 ->
+  parse_date [] (cy, cm, cd) (spell_md_sep m d zm zd s1) = DOk dn ->
+  exists y, boost_from_day_number dn = (y, m, d) /\ valid_ymd y m d /\
+            ((y = cy /\ m <= cm) \/ (y = cy - 1 /\ cm < m)).
+Proof. exact DatesProofs.md_exact_day. Qed.
+Print Assumptions md_exact_day.
 
-(* in general: the last day of a month goes to the last day of that month a year earlier *)
-Theorem md_previous_year_last_day : forall cy cm cd m,
-  1 <= m <= 12 -> 1401 <= cy <= 9999 -> cm < m ->
-  infer_year (cy, cm, cd) (boost_day_number cy m (days_in_month cy m)) =
-  DOk (boost_day_number (cy - 1) m (days_in_month (cy - 1) m)).
-Proof. exact infer_prev_year_last_day. Qed.
-Print Assumptions md_previous_year_last_day.
+(* the complete forward rule *)
+Theorem md_read : forall cy cm cd m d zm zd s1,
+  valid_ymd cy m d -> 1400 <= cy <= 9999 -> is_sep s1 ->
+  parse_date [] (cy, cm, cd) (spell_md_sep m d zm zd s1) =
+  if cm <? m then mk_date (cy - 1) m d else DOk (boost_day_number cy m d).
+Proof. exact parse_md_spelled_any. Qed.
+Print Assumptions md_read.
+
+(* 29 February without a year, read in January of a leap year: 29 February of the previous year
+   does not exist - an error, not a neighbouring day.  (In January of the year AFTER a leap year
+   the string is refused even earlier: the date is first built in the current year.) *)
+Theorem md_feb29_previous_year_rejected : forall cy cm cd,
+  valid_ymd cy 2 29 -> 1401 <= cy <= 9999 -> cm < 2 ->
+  infer_year (cy, cm, cd) (boost_day_number cy 2 29) = DErr DBadDay.
+Proof. exact infer_prev_year_feb29. Qed.
+Print Assumptions md_feb29_previous_year_rejected.
+
+Example md_examples :
+  let p cur s := parse_date_ymd [] cur s in
+  p (2021, 1, 15) [48; 50; 47; 50; 56] = DOk (2020, 2, 28) (* 02/28 *) /\
+  p (2021, 1, 15) [48; 50; 47; 50; 57] = DErr DBadDay      (* 02/29: 2021 is not a leap year *) /\
+  p (2024, 1, 15) [48; 50; 47; 50; 57] = DErr DBadDay      (* 02/29: 2023 is not a leap year *) /\
+  p (2024, 3, 15) [48; 50; 47; 50; 57] = DOk (2024, 2, 29) /\
+  p (2025, 1, 15) [48; 50; 47; 50; 57] = DErr DBadDay      (* built in 2025 first *) /\
+  p (2021, 1, 15) [48; 51; 47; 51; 49] = DOk (2020, 3, 31) /\
+  p (1400, 1, 15) [48; 50; 47; 50; 56] = DErr DBadYear.
+Proof. vm_compute. repeat split. Qed.
